@@ -532,7 +532,7 @@ def translate(repo, out_path):
             raise TranslateError(f"AdArray.{m} not found")
     if _norm_src(methods["__getitem__"]) != EXPECT_GETITEM:
         raise TranslateError("AdArray.__getitem__ changed; it is modelled by hand (row selection of val and jac):\n" + _norm_src(methods["__getitem__"]))
-    if _norm_src(init[0]) != EXPECT_INIT:
+    if _norm_src(init[0]) not in (EXPECT_INIT, EXPECT_INIT.replace("sps.bmat([jac])", "sps.bmat([jac], format='csr')")):
         raise TranslateError("initAdArrays changed; it is modelled by hand (identity block per variable):\n" + _norm_src(init[0]))
 
     ip = Interp(methods, functions)
